@@ -25,6 +25,7 @@ type Obligation struct {
 	Pos      string
 	Text     string
 	WantSat  bool // vacuity checks: must be satisfiable
+	Raw      string // self-contained query (regex obligations): unsat means the obligation holds
 }
 
 type FuncVC struct {
